@@ -97,7 +97,7 @@ func (x *Exec) calleeOf(c *ast.CallExpr) *types.Func {
 }
 
 func (x *Exec) isOpaqueCallee(fn *types.Func) bool {
-	if x.con == nil || fn == nil {
+	if x.con == nil || fn == nil || fn.Pkg() == nil || !x.L.target[fn.Pkg().Path()] {
 		return false
 	}
 	for _, n := range strings.Split(x.con.Opts["opaque-calls"], ",") {
@@ -210,8 +210,7 @@ func (x *Exec) inlineCall(c *ast.CallExpr, st *State) []*State {
 // passValue: struct values are copied when passed by value.
 func (x *Exec) passValue(st *State, v Value, t types.Type) Value {
 	if x.isLocStruct(t) {
-		r := x.fresh("cp", SInt)
-		st.assume("(> " + r.S + " 0)")
+		r := x.newRef(st, "cp")
 		x.copyStruct(st, t, r, asTerm(v))
 		return r
 	}
